@@ -92,6 +92,29 @@ fn cookie(s: &Spec, now: u64) -> (Option<Vec<u8>>, Option<bool>) {
             let ts = now + 1 - s.expiry;
             (Some(sign(&body(ts, CLIENT), &sec)), Some(false))
         }
+        "issued" => {
+            // the cookie the router itself issues: a first connection logs in (the service vouches for the
+            // cookie holder), is routed and is handed its cookie; s.n = real milliseconds the client then
+            // waits before presenting it. With n = 0 it is valid; with expiry 1 and n = 2100 it has expired.
+            let mut first = Case::default();
+            first.cfg.auth_secret = secret(s);
+            first.cfg.expiry = s.expiry;
+            first.cfg.client_addr = CLIENT.parse().unwrap();
+            first.script = Login::default().steps();
+            first.adapters.auth = AuthPlan::Profile { name: CK_NAME.into(), uuid: CK_UUID, props: ck_props() };
+            first.horizon_ms = 60_000;
+            let obs = crate::sim::run(&first);
+            let issued = obs.packets.iter().find_map(|(_, p)| match p {
+                Pkt::StoreCookie { key, payload } if key == "passage:authentication" => Some(payload.clone()),
+                _ => None,
+            });
+            let expired = s.n as u64 >= (s.expiry + 1) * 1000 + 50;
+            match issued {
+                // not handed a cookie at all (that is C10's subject): the second connection has none to show
+                None => (None, Some(false)),
+                Some(c) => (Some(c), Some(!expired)),
+            }
+        }
         "body" => {
             let (bytes, verdict): (Vec<u8>, Option<bool>) = match s.text.as_str() {
                 "not-json" => (b"this is not json at all \xff\xfe".to_vec(), Some(false)),
@@ -136,7 +159,7 @@ fn build(s: &Spec, now: u64) -> (Case, Option<bool>) {
     let (payload, verdict) = if asked { cookie(s, now) } else { (None, Some(false)) };
     let login = Login { intent: s.intent, auth_cookie: asked.then_some(payload), ..Default::default() };
     case.script = login.steps();
-    if s.kind == "age-stall" {
+    if s.kind == "age-stall" || (s.kind == "issued" && s.n > 0) {
         let at = case.script.iter().position(|st| matches!(&st.act, Act::Cookie { key, .. } if key == "passage:authentication")).unwrap_or_else(|| common::machinery("C02: no authentication cookie step"));
         case.script.insert(at, st(When::Idle, Act::RealSleep(s.n as u64)));
     }
@@ -255,6 +278,10 @@ fn specs(cookie_len: usize, thorough: bool) -> Vec<Spec> {
     for (expiry, stall) in [(60u64, 2_100i64), (1, 2_100), (21_600, 2_100)] {
         v.push(sp(3, Some(k), "age-stall", stall, expiry, ""));
     }
+    // the router's own cookie, presented at once and after it has expired (real time)
+    for (expiry, stall) in [(21_600u64, 0i64), (1, 0), (1, 2_100), (0, 1_100)] {
+        v.push(sp(3, Some(k), "issued", stall, expiry, ""));
+    }
     if thorough {
         // every pair of tag bits
         for a in 0..256i64 {
@@ -344,7 +371,7 @@ pub fn run(cli: Cli) -> ! {
     rep.set("clock_retries", json!(retries.load(Ordering::Relaxed)));
     rep.set("cookie_length_bytes", json!(sample_cookie.len()));
     rep.set("exhaustive", json!(true));
-    rep.set("rule", json!("one connection per cookie variant: every truncation length, every single-bit flip of tag and body (thorough: also every pair of tag bits), other secret, 6 addresses, ages {0, e-2, e-1, e, e+1, e+2, e+10^6, -1} x expiry {0,1,60,21600}, 10 signed bodies that are not a cookie, 5 secret length classes, intent x secret combinations without a cookie branch; 12 cookie situations x authentication latency {4 s, 8 s, 40 s} x service verdict {vouches, refuses}; 3 cookies that are valid when the connection starts and expired (2.1 s of real time later) when presented. Every spec is distinct."));
+    rep.set("rule", json!("one connection per cookie variant: every truncation length, every single-bit flip of tag and body (thorough: also every pair of tag bits), other secret, 6 addresses, ages {0, e-2, e-1, e, e+1, e+2, e+10^6, -1} x expiry {0,1,60,21600}, 10 signed bodies that are not a cookie, 5 secret length classes, intent x secret combinations without a cookie branch; 12 cookie situations x authentication latency {4 s, 8 s, 40 s} x service verdict {vouches, refuses}; 3 cookies that are valid when the connection starts and expired (2.1 s of real time later) when presented; 4 histories in which the cookie is the one the router itself issued on a first connection, presented at once and after its expiry has passed in real time. Every spec is distinct."));
     rep.sample(json!({"spec": all[0]}));
     rep.sample(json!({"spec": sp(3, Some("6b"), "age", 60, 60, ""), "expect": "accepted (age == expiry) if the wall-clock second does not tick during the run, else repeated"}));
     rep.sample(json!({"spec": sp(3, Some("6b"), "bitflip", 255, 21600, ""), "expect": "must authenticate"}));
